@@ -104,46 +104,7 @@ def run(ctx):
     ctx.floor("view impls", n, 30)
 
     # ---- hand-written callers of unchecked constructors -----------------------------------------------
-    ctx.rule("C10.unchecked", "hand-written calls of unchecked constructors: the argument is (a) an existing identifier of a type whose language is "
-                              "contained in the target's (reviewed pairs), (b) a sub-slice of a validated identifier taken by an accessor, or "
-                              "(c) a recomposed string - which must have been re-validated; anything else is reported")
-    n = 0
-    for fn in w.all_fns():
-        if "IdZst" in (fn.get("mac") or []) or "body" not in fn:
-            continue
-        for body in M.all_bodies(fn):
-            defs = PC.roots(body)
-            for bi, c in M.calls(body):
-                name = M.callee_name(c)
-                m = name.rsplit("::", 1)[-1]
-                if m not in UNCHECKED or not name.startswith(ID):
-                    continue
-                n += 1
-                target = short_ty(name.rsplit("::", 1)[0])
-                e = PC.expr(body, defs, c["args"][0])
-                txt = json.dumps(e)
-                key = f"C10.unchecked:{fn['path']}->{target}::{m}"
-                where = w.where(fn, c["line"])
-                if "alloc::fmt::format" in txt or "push_str" in txt or "String::with_capacity" in txt or is_string_build(body, c["args"][0]):
-                    # recomposition: a validate call on the same string must dominate
-                    ctx.violation("C10.unchecked", key + ":recomposed-not-revalidated", where,
-                                  f"{fn['path']} builds the identifier text and passes it to {target}::{m} without validating the result "
-                                  f"(e.g. parts that are individually valid can exceed 255 bytes or contain the separator)")
-                elif "Index" in txt and "::index" in txt:
-                    src = [t_ for t_ in types.values() if short_ty(t_) + "::as_str" in txt]
-                    ctx.check(bool(src) or "as_str" in txt, "C10.unchecked", key + ":subslice", where, ok_msg="sub-slice of a validated identifier",
-                              bad_msg="sub-slice of something that is not a validated identifier")
-                else:
-                    srcs = sorted({short_ty(t_) for t_ in types.values() if short_ty(t_) + "::as_str" in txt or short_ty(t_) + ">::as_ref" in txt or
-                                   short_ty(t_) + " as " in txt})
-                    pair_ok = [s for s in srcs if f"{target}<-{s}" in CONVERSIONS_OK or s == target]
-                    if "_priv_const_new" in fn["path"]:
-                        ctx.ok("C10.unchecked", key + ":const-new", where, "private constructor behind the compile-time validating macro")
-                    elif pair_ok:
-                        ctx.ok("C10.unchecked", key + f":conversion:{pair_ok[0]}", where, CONVERSIONS_OK.get(f"{target}<-{pair_ok[0]}", "same type"))
-                    else:
-                        ctx.violation("C10.unchecked", key + ":unclassified", where, f"argument provenance {txt[:200]} is none of the reviewed classes")
-    ctx.floor("hand-written unchecked constructor calls", n, 10)
+    unchecked_rule(ctx, w, types, "C10.unchecked")
 
     # ---- constants ------------------------------------------------------------------------------------------
     ctx.rule("C10.constants", "ID_MAX_BYTES = 255 and validate_id refuses exactly the lengths above it (length test present in this build configuration); sigils per type")
@@ -176,6 +137,9 @@ def run(ctx):
     # room version ids: each known variant <-> exactly its canonical literal (stored byte-for-byte otherwise)
     T.version_rules(ctx, w, [], rule="C10.room-version")
     if ctx.tier == "thorough":
+        # build configuration B adds the `rand` feature of ruma-common: the generating constructors (RoomId::new, EventId::new, UserId::new, ...)
+        wb = W.World(ctx.facts("B"), ["ruma_common", "ruma_identifiers_validation"])
+        unchecked_rule(ctx, wb, id_types(wb), "C10.unchecked-B", floor=7, skip={fn["path"] for fn in w.all_fns()})   # only what configuration A does not have
         from .. import witness
         witness.check(ctx, "C10.witness", {"C10FromBorrowed": "UserId::from_borrowed is callable from another crate: identifiers can be created without validation", "C10FromBox": "RoomAliasId::from_box is callable from another crate: identifiers can be created without validation"})
     from . import controls
@@ -246,6 +210,56 @@ def invariant_rules(ctx, w):
     length_rules(ctx, w)
     localpart_rules(ctx, w)
     split_agreement(ctx, w, "C10.split-agreement")
+
+
+def unchecked_rule(ctx, w, types, rule, floor=10, skip=()):
+    ctx.rule(rule, "hand-written calls of unchecked constructors: the argument is (a) an existing identifier of a type whose language is "
+                              "contained in the target's (reviewed pairs), (b) a sub-slice of a validated identifier taken by an accessor, or "
+                              "(c) a recomposed string - which must have been re-validated; anything else is reported")
+    n = 0
+    for fn in w.all_fns():
+        if "IdZst" in (fn.get("mac") or []) or "body" not in fn or fn["path"] in skip:
+            continue
+        for body in M.all_bodies(fn):
+            defs = PC.roots(body)
+            for bi, c in M.calls(body):
+                name = M.callee_name(c)
+                m = name.rsplit("::", 1)[-1]
+                if m not in UNCHECKED or not name.startswith(ID):
+                    continue
+                n += 1
+                target = short_ty(name.rsplit("::", 1)[0])
+                e = PC.expr(body, defs, c["args"][0])
+                txt = json.dumps(e)
+                key = f"{rule}:{fn['path']}->{target}::{m}"
+                where = w.where(fn, c["line"])
+                if "alloc::fmt::format" in txt or "push_str" in txt or "String::with_capacity" in txt or is_string_build(body, c["args"][0]):
+                    # recomposition: a validate call on the same string must dominate
+                    ctx.violation(rule, key + ":recomposed-not-revalidated", where,
+                                  f"{fn['path']} builds the identifier text and passes it to {target}::{m} without validating the result "
+                                  f"(e.g. parts that are individually valid can exceed 255 bytes or contain the separator)")
+                elif "Index" in txt and "::index" in txt:
+                    src = [t_ for t_ in types.values() if short_ty(t_) + "::as_str" in txt]
+                    ctx.check(bool(src) or "as_str" in txt, rule, key + ":subslice", where, ok_msg="sub-slice of a validated identifier",
+                              bad_msg="sub-slice of something that is not a validated identifier")
+                else:
+                    srcs = sorted({short_ty(t_) for t_ in types.values() if short_ty(t_) + "::as_str" in txt or short_ty(t_) + ">::as_ref" in txt or
+                                   short_ty(t_) + " as " in txt})
+                    pair_ok = [s for s in srcs if f"{target}<-{s}" in CONVERSIONS_OK or s == target]
+                    generated = re.fullmatch(r'\["call", "<alloc::string::String as core::ops::deref::Deref>::deref", \[\["call", "<T as alloc::string::ToString>::to_string", '
+                                             r'\[\["call", "uuid::fmt::<impl uuid::Uuid>::simple", \[\["call", "uuid::v4::<impl uuid::Uuid>::new_v4", \[\]\]\]\]\]\]\]\]', txt) is not None or \
+                        re.fullmatch(r'\["cast", "\*const str", \["field", \["field", \["call", "ruma_common::identifiers::generate_localpart", \[\["const", \d+\]\]\], "0"\], "pointer"\]\]', txt) is not None
+                    if generated:
+                        ctx.ok(rule, key + ":generated", where, "the whole text is a generated token (simple-format v4 UUID: 32 lower-case hex digits; or N random ASCII "
+                                                              "alphanumerics): within every identifier grammar that has one, far below 255 bytes")
+                    elif "_priv_const_new" in fn["path"]:
+                        ctx.ok(rule, key + ":const-new", where, "private constructor behind the compile-time validating macro")
+                    elif pair_ok:
+                        ctx.ok(rule, key + f":conversion:{pair_ok[0]}", where, CONVERSIONS_OK.get(f"{target}<-{pair_ok[0]}", "same type"))
+                    else:
+                        ctx.violation(rule, key + ":unclassified", where, f"argument provenance {txt[:200]} is none of the reviewed classes")
+    ctx.floor(f"hand-written unchecked constructor calls ({rule})", n, floor)
+
 
 
 def is_string_build(body, op):
